@@ -117,6 +117,9 @@ type Verdict struct {
 	Hijack     int                    // != 0: SendHijackReply(code, request headers) before returning
 	HijackBody string                 // with Hijack: SendHijackReplyWithBody
 	Direct     bool                   // SendDirectResponse(headers{}, nil, nil) before returning (receiver filters)
+	// ReplyHeaders, when not nil, are the headers the filter passes to SendHijackReply[WithBody] / SendDirectResponse
+	// instead of the request headers / an empty map (used to tag the answer with its owner)
+	ReplyHeaders map[string]string
 	Do         func(ex *Exchange, rh api.StreamReceiverFilterHandler, sh api.StreamSenderFilterHandler)
 }
 
